@@ -377,6 +377,10 @@ func exhaustiveC18(thorough bool, emit func(C18Case) bool) {
 	}
 }
 
-func TestC18(t *testing.T) {
-	Run(t, Prop[C18Case]{ID: "C18", Gen: genC18, Exhaustive: exhaustiveC18, Check: checkC18})
+func propC18() Prop[C18Case] {
+	return Prop[C18Case]{ID: "C18", Gen: genC18, Exhaustive: exhaustiveC18, Check: checkC18}
 }
+
+func TestC18(t *testing.T) { Run(t, propC18()) }
+
+func FuzzGenC18(f *testing.F) { RunFuzz(f, propC18()) }
